@@ -8,8 +8,8 @@ from `init n0` nothing is lost or invented, the peer's view of the window is exa
 `avail`, no WINDOW_UPDATE lifts it above 2^31-1 (the model panics exactly where the Go
 code does), and the only credit ever withheld is the `inflowMinRefresh` batching residue.
 Part B (monitor): every trace accepted by `Model.FlowMonitor` satisfies the wire-level
-statement; the literal statement ("back to its configured size") is false of the unchanged
-code (`full_false`) and `holds_partial` states what does hold.
+statement; the literal statement ("back to its configured size") is false of the code
+(`full_false`, batching residue by design) and `holds_partial` states what does hold.
 -/
 namespace NetVerif.Proofs.C10
 open NetVerif.Model.Flow NetVerif.Proofs.Flow
@@ -81,9 +81,10 @@ example : NoOverRefund (Ledger.start 65535) [.take 100, .add 100] := by
 
 open NetVerif.Model.FlowMonitor NetVerif.Proofs.FlowMon
 
-/-- A WINDOW_UPDATE(0) is only accepted if the resulting peer view is ≤ 2^31-1. -/
+/-- A WINDOW_UPDATE(0) is only accepted if the resulting peer view is ≤ 2^31-1 and not above
+the configured size. -/
 theorem monitor_wu_checked (fc : Option Nat) (m m' : Mon) (n : Int) (h : obsStep fc m (.wu 0 n) = .ok m') :
-    m'.conn = m.conn + n ∧ m'.conn ≤ maxWindow ∧ m'.sumWU = m.sumWU + n ∧ m'.conn ≤ m'.configured + m'.over := by
+    m'.conn = m.conn + n ∧ m'.conn ≤ maxWindow ∧ m'.sumWU = m.sumWU + n ∧ m'.conn ≤ m'.configured := by
   simp only [obsStep, if_true] at h
   split at h
   · cases h
@@ -104,19 +105,20 @@ theorem monitor_windows_bounded (pre suf : List Line) (m : Mon) (h : run Mon.ini
   exact ⟨mp, h1, i.conn_le, fun s hs => (i.streams s hs).1, i.ghost⟩
 
 /-- Credit withheld at a quiescent point, from the peer's side. -/
-def Residue (m : Mon) : Int := m.configured + m.over - m.conn
+def Residue (m : Mon) : Int := m.configured - m.conn
 
 /-- **C10.holds_partial.** Whenever the monitor accepts a `quiesce` line on a live connection,
-the peer's view `65535 + Σ WINDOW_UPDATE − Σ DATA` equals `configured + over − residue` with
-`0 ≤ residue`, and `residue = 0` or `residue < inflowMinRefresh ∧ residue < window`;
-`over` is the number of body bytes read by handlers after `closeStream` (the double refund).
-Outside the excluded region (`over = 0`, `residue = 0`) the view is exactly the configured size. -/
+the peer's view `65535 + Σ WINDOW_UPDATE − Σ DATA` equals `configured − residue` with
+`0 ≤ residue`, and `residue = 0` or `residue < inflowMinRefresh ∧ residue < window`.
+Outside the excluded region (`residue = 0`) the view is exactly the configured size.
+(Before the `closeStream` repair the statement carried a second excluded region, the bytes
+refunded twice; it is gone: such a history is now rejected, see `overRefund_rejected`.) -/
 theorem holds_partial (m m' : Mon) (obs : List Obs) (hm : MInv m)
     (h : liveLine m .quiesce obs = .ok m') (hd : m'.dead = false) :
-    initialWindowSize + m'.sumWU - m'.sumData = m'.configured + m'.over - Residue m' ∧
+    initialWindowSize + m'.sumWU - m'.sumData = m'.configured - Residue m' ∧
     0 ≤ Residue m' ∧
     (Residue m' = 0 ∨ (Residue m' < inflowMinRefresh ∧ Residue m' < m'.conn)) ∧
-    (m'.over = 0 → Residue m' = 0 → initialWindowSize + m'.sumWU - m'.sumData = m'.configured) := by
+    (Residue m' = 0 → initialWindowSize + m'.sumWU - m'.sumData = m'.configured) := by
   have hi := liveLine_inv m m' .quiesce obs hm h
   have hg := hi.ghost
   unfold liveLine at h
@@ -141,7 +143,7 @@ theorem holds_partial (m m' : Mon) (obs : List Obs) (hm : MInv m)
         simp only [Bool.false_or, residueOK, Bool.and_eq_true, Bool.or_eq_true, decide_eq_true_eq] at hr
         omega
       · simp only [hr] at h
-        by_cases hneg : m1.configured + m1.over - m1.conn < 0 <;> simp [hneg] at h
+        by_cases hneg : m1.configured - m1.conn < 0 <;> simp [hneg] at h
 
 /-- The literal statement: on every accepted trace, at `quiesce` on a live connection the
 peer's view of the connection window is back to the configured size. -/
@@ -149,7 +151,7 @@ def FullStatement : Prop :=
   ∀ (tr : List Line) (m : Mon), run Mon.init (tr ++ [⟨.quiesce, []⟩]) = .ok m → m.dead = false →
     initialWindowSize + m.sumWU - m.sumData = m.configured
 
-/-- Witness 1 (by design): one 100-byte body read to EOF — no WINDOW_UPDATE is owed
+/-- Witness (by design): one 100-byte body read to EOF — no WINDOW_UPDATE is owed
 (corpus/C10/witness.server.ops case 0 is this trace recorded from the real server). -/
 def witnessResidue : List Line :=
   [⟨.reset 1048576 1048576, [.set 1048576, .wu 0 983041, .other]⟩,
@@ -159,33 +161,39 @@ def witnessResidue : List Line :=
    ⟨.read 1, [.rd 1 0, .other]⟩,
    ⟨.hexit 1, [.other]⟩]
 
-/-- Witness 2 (defect): 48000 buffered bytes, peer resets the stream (48000 refunded), the
-handler then reads the 48000 bytes and they are refunded again (corpus case 1). -/
-def witnessOverRefund : List Line :=
+theorem witnessResidue_accepted :
+    ∃ m, run Mon.init (witnessResidue ++ [⟨.quiesce, []⟩]) = .ok m ∧ m.dead = false ∧
+      initialWindowSize + m.sumWU - m.sumData = m.configured - 100 :=
+  ⟨_, rfl, rfl, by decide⟩
+
+/-- **C10.full_false.** The literal statement is false of the code as it is (batching residue). -/
+theorem full_false : ¬ FullStatement := by
+  intro h
+  obtain ⟨m, h1, h2, h4⟩ := witnessResidue_accepted
+  have := h witnessResidue m h1 h2
+  omega
+
+/-! #### regression: the repaired `closeStream` double refund (corpus/C10 case 1).
+48000 buffered bytes, the peer resets the stream. The unpatched server refunded 48000 at
+`closeStream`, let the handler read the 48000 bytes and refunded them again. -/
+
+/-- The trace the unpatched server produced: rejected at the second WINDOW_UPDATE. -/
+def overRefundOld : List Line :=
   [⟨.reset 1048576 1048576, [.set 1048576, .wu 0 983041, .other]⟩,
    ⟨.hdr 1 (-1) false, []⟩,
    ⟨.data 1 16000 (-1) false, []⟩,
    ⟨.data 1 16000 (-1) false, []⟩,
    ⟨.data 1 16000 (-1) false, []⟩,
    ⟨.crst 1, [.wu 0 48000]⟩,
-   ⟨.read 1, [.rd 1 48000, .wu 0 48000]⟩,
-   ⟨.hexit 1, []⟩]
+   ⟨.read 1, [.rd 1 48000, .wu 0 48000]⟩]
 
-theorem witnessResidue_accepted :
-    ∃ m, run Mon.init (witnessResidue ++ [⟨.quiesce, []⟩]) = .ok m ∧ m.dead = false ∧
-      m.over = 0 ∧ initialWindowSize + m.sumWU - m.sumData = m.configured - 100 :=
-  ⟨_, rfl, rfl, rfl, by decide⟩
+theorem overRefund_rejected : run Mon.init overRefundOld = .error "conn-window-above-configured" := rfl
 
-theorem witnessOverRefund_accepted :
-    ∃ m, run Mon.init (witnessOverRefund ++ [⟨.quiesce, []⟩]) = .ok m ∧ m.dead = false ∧
-      m.over = 48000 ∧ initialWindowSize + m.sumWU - m.sumData = m.configured + 48000 :=
-  ⟨_, rfl, rfl, rfl, by decide⟩
-
-/-- **C10.full_false.** The literal statement is false of the code as it is. -/
-theorem full_false : ¬ FullStatement := by
-  intro h
-  obtain ⟨m, h1, h2, _, h4⟩ := witnessResidue_accepted
-  have := h witnessResidue m h1 h2
-  omega
+/-- The trace of the repaired server for the same script: the read after the reset returns
+nothing, and at quiescence the peer's view is exactly the configured size. -/
+example : ∃ m, run Mon.init (overRefundOld.take 6 ++
+      [⟨.read 1, [.rd 1 0, .other]⟩, ⟨.hexit 1, []⟩, ⟨.quiesce, []⟩]) = .ok m ∧ m.dead = false ∧
+      initialWindowSize + m.sumWU - m.sumData = m.configured :=
+  ⟨_, rfl, rfl, by decide⟩
 
 end NetVerif.Proofs.C10
